@@ -60,6 +60,10 @@ macro_rules! battery {
                         s += &format!(" from_ymd={}", res(Date::from_ymd(b as i32, cc as u32, d as u32), show_d));
                         s += &format!(" dt_from_ymd={}", res(DateTime::from_ymd(b as i32, cc as u32, d as u32), show_dt));
                         s += &format!(" set_doy={}", res(x.set_day_of_year(e as u32), show_d));
+                        // the same through a DateTime read with an offset (local date may differ from the UTC date)
+                        let offs = [0i64, 7200, -7200, 3600, -3661, 86_399, -86_399, 1800];
+                        let y = dt(a.clamp(-2_000_000_000, 2_000_000_000), (d.rem_euclid(24) * 3600 + 1800) * 1_000_000_000, offs[(f.rem_euclid(8)) as usize]);
+                        s += &p(|| format!(" dt: wd={} doy={} set_doy={}", y.weekday(), y.day_of_year(), res(y.set_day_of_year(e as u32), |q| format!("{} doy{}", show_dt(q), q.day_of_year()))));
                         s
                     }
                     "C03" => {
@@ -144,12 +148,16 @@ macro_rules! battery {
                         });
                         let o = Offset::from_seconds(f as i32);
                         let r2 = match &o {
-                            Ok(off) => format!("{} | {} | {} | {:?}", p(|| g(&x.set_offset(*off))), p(|| g(&x.as_offset(*off))), p(|| gt(&t.as_offset(*off))), off.resolve_hms()),
+                            Ok(off) => format!("{} | {} | {} | {:?} | {} {} {}", p(|| g(&x.set_offset(*off))), p(|| g(&x.as_offset(*off))), p(|| gt(&t.as_offset(*off))), off.resolve_hms(),
+                                p(|| { let q = x.set_offset(*off); format!("{} {:?}", gt(&Time::from(&q)), Time::from(&q).get_offset()) }),
+                                p(|| { let q = x.set_offset(*off); format!("{} {:?}", gt(&Time::from(q)), Time::from(q).get_offset()) }),
+                                p(|| { let q = x.set_offset(*off); format!("{} {:?}", g(&DateTime::from(&q)), DateTime::from(&q).get_offset()) })),
                             Err(er) => format!("Err({})", er),
                         };
                         let r3 = p(|| format!("{} {} {} {} {}", res(DateTime::from_ymdhms(d as i32, (f & 15) as u32, (e & 63) as u32, (cc & 31) as u32, (a & 63) as u32, (b & 63) as u32), g),
                             res(Offset::from_hms((f % 40) as i32, (e & 63) as u32, (a & 63) as u32), |o| format!("{:?}", o)), res(DateTime::from_hms(v, (e & 63) as u32, (a & 63) as u32), g),
                             res(Date::from_ymd(d as i32, (f & 15) as u32, (e & 63) as u32).and_then(|q| q.set_day_of_year(v % 400)), show_d), res(date(a).set_year(d as i32), show_d)));
+                        let r3 = format!("{} {} {}", r3, res(date(a).set_day(v), show_d), res(date(a).set_month(v), show_d));
                         // constructors of Time with their error texts (the stated range is part of C15)
                         let r3 = format!("{} {} {} {}", r3, res(Time::from_hms(v, (e & 63) as u32, (a & 63) as u32), show_t), res(Time::from_seconds(v), show_t),
                             res(Time::from_nanos(if e % 3 == 0 { 86_400_000_000_000 + (d as u64 % 3) } else { (d as u64).wrapping_mul(1_000_003) }), show_t));
@@ -269,7 +277,7 @@ fn gen(prop: &str, r: &mut Rng) -> Case {
     match prop {
         "C01" | "C02" => {
             let y = if r.next() % 2 == 0 { small(r, 4200) - 2100 } else { r.pick(&[-5_879_612, -5_879_611, -5_879_610, -401, -5, -4, -1, 0, 1, 4, 100, 400, 1900, 2000, 2024, 5_879_610, 5_879_611, 5_879_612]) };
-            Case { a: day(r), b: y, c: small(r, 14), d: small(r, 33), e: small(r, 368), f: 0 }
+            Case { a: day(r), b: y, c: small(r, 14), d: small(r, 33), e: small(r, 368), f: small(r, 8) }
         }
         "C03" => Case { a: if r.next() % 2 == 0 { (r.next() as i64) >> (r.next() % 40) } else { (day(r) - 719_162) * 86_400 + small(r, 86_400) - 1 }, b: day(r).clamp(-2_000_000_000, 2_000_000_000), c: nano(r), d: r.pick(&OFFS), e: r.next() as i64, f: r.next() as i64 },
         "C04" | "C05" => Case { a: day(r).clamp(-2_147_483_000, 2_147_483_000), b: nano(r), c: r.pick(&OFFS), d: cnt(r), e: r.next() as i64 & 0xffff, f: match r.next() % 4 { 0 => cnt(r) * 1000, 1 => r.pick(&[-1, -86_400, i64::MAX, i64::MIN, 1 << 32, (1 << 32) - 1, 185_542_587_187_199, 185_542_587_187_200]), _ => (r.next() >> (r.next() % 40)) as i64 & 0x7fff_ffff_ffff_ffff } },
